@@ -67,6 +67,7 @@ class TcpConnection(object):
         self.__socket = socket
         self.__readBuffer = bytes()
         self.__writeBuffer = bytes()
+        self.__eof = False
         self.__lastReadTime = monotonicTime()
         self.__lastSendTime = 0
         self.__timeout = timeout
@@ -125,6 +126,7 @@ class TcpConnection(object):
         self.__socket.setblocking(0)
         self.__readBuffer = bytes()
         self.__writeBuffer = bytes()
+        self.__eof = False
         self.__lastReadTime = monotonicTime()
 
         try:
@@ -250,6 +252,9 @@ class TcpConnection(object):
                 if self.__isGone(sock):
                     return
 
+            if self.__eof:
+                self.disconnect()
+
     def __processConnectionTimeout(self):
         if monotonicTime() - self.__lastReadTime > self.__timeout:
             self.disconnect()
@@ -295,7 +300,9 @@ class TcpConnection(object):
             self.disconnect()
             return False
         if not incoming:
-            self.disconnect()
+            # End of stream. What was read before it in this round is complete data of the peer:
+            # the caller delivers it first and disconnects then.
+            self.__eof = True
             return False
         self.__readBuffer += incoming
         return True
